@@ -25,6 +25,7 @@ type params struct {
 	Cuts    int `json:"cuts"`
 	Surgery int `json:"surgery"` // random payload edits per assembly
 	Flips   int `json:"flips"`   // raw byte flips/truncations per assembly
+	VM      bool `json:"vm"`     // translation-stack batch
 }
 
 func main() {
@@ -36,7 +37,7 @@ func main() {
 			"(build id, added/removed component, each component's spec, port capacity, connection spec, storage capacity) must make LoadCheckpoint return an error; (c) archive surgery from a fixed list of definite faults " +
 			"(unknown handler, unknown event/message type tag, truncated payload, more buffered messages than capacity, storage header mismatch, huge unit count, spec-hash edit, entity removed/added/duplicated, build id edited/missing) must return an error, " +
 			"and PRNG type-confusions, byte flips and truncations of the gzip stream may succeed or fail; nothing may panic or crash. Every attempt is one enumerated fault; non-trivial = the fault was applied to an archive with messages in flight; distinct by (configuration, fault)",
-		Assumptions: []string{"memory-hierarchy assemblies; page-size mismatch is exercised by the translation-stack assemblies once they exist in the sim kit"},
+		Assumptions: []string{"memory-hierarchy assemblies for the archive surgery; translation-stack assemblies for the page-size and translation-component mismatches"},
 		Plan: func(tier string, seed int64) []kit.Batch {
 			nb, n := 16, 1
 			p := params{NumReqs: 100, Cuts: 2, Surgery: 30, Flips: 30}
@@ -45,12 +46,14 @@ func main() {
 			}
 			var bs []kit.Batch
 			for i := 0; i < nb; i++ {
-				bs = append(bs, kit.Batch{Name: fmt.Sprintf("arch%d", i), Seed: seed*15485863 + int64(i), N: n, Params: kit.MkParams(p)})
+				q := p
+				q.VM = i%4 == 3
+				bs = append(bs, kit.Batch{Name: fmt.Sprintf("arch%d", i), Seed: seed*15485863 + int64(i), N: n, Params: kit.MkParams(q)})
 			}
 			return bs
 		},
 		Run:         run,
-		MustObserve: []string{"resave_compared", "config_mutations_tried", "surgery_must_fail_tried", "flips_tried", "loads_rejected_with_error"},
+		MustObserve: []string{"page_size_mismatches_tried", "resave_compared", "config_mutations_tried", "surgery_must_fail_tried", "flips_tried", "loads_rejected_with_error"},
 	})
 }
 
@@ -58,6 +61,10 @@ func run(b kit.Batch, r *kit.R) {
 	var p params
 	b.P(&p)
 	r.ForEach(b.N, func(c *kit.Case) {
+		if p.VM {
+			vmCase(c, p)
+			return
+		}
 		cfg := sim.RandomStackCfg(c.Rng, sim.GenOpts{NumReqs: p.NumReqs, AllowDRAM: true, AllowBanked: true, MaxDrivers: 2, ForceCache: c.Rng.Intn(3) > 0})
 		c.Desc(cfg)
 		one(c, cfg, p)
@@ -474,6 +481,112 @@ func one(c *kit.Case, cfg sim.StackCfg, p params) {
 		judge(fault, false, e, pn, nil)
 	}
 	c.Sample(map[string]any{"cfg": cfg, "archive_bytes": len(archive), "entities": len(members), "inflight_at_cut": sv.InFlight[bestIdx]})
+}
+
+// vmCase: translation stacks — canonical re-save and the page-size / translation-component mismatches.
+func vmCase(c *kit.Case, p params) {
+	r := c.R
+	cfg := sim.RandomVMCfg(c.Rng, p.NumReqs)
+	c.Desc(cfg)
+	cfgJSON, _ := json.Marshal(cfg)
+	dir := filepath.Join(r.WorkDir, fmt.Sprintf("case%d", c.Index))
+	os.MkdirAll(dir, 0o755)
+	limit := uint64(p.NumReqs) * 200000 * 1000
+	ref, err := sim.CallRole(sim.RoleReq{Role: "ref", Kind: "vm", Cfg: cfgJSON, Dir: dir, Limit: limit, KeepTrace: true})
+	if err != nil || ref.Err != "" || !ref.Done {
+		r.Count("reference_runs_not_clean(skipped)", 1)
+		return
+	}
+	times := sim.DistinctTimes(&sim.EventTrace{Recs: ref.Trace})
+	cut := uint64(times[len(times)/4+c.Rng.Intn(len(times)/2)])
+	sv, err := sim.CallRole(sim.RoleReq{Role: "saves", Kind: "vm", Cfg: cfgJSON, Dir: dir, Limit: limit, Cuts: []uint64{cut}})
+	if err != nil || sv.Err != "" {
+		c.Fail("archive/save-error", map[string]any{"err": fmt.Sprint(err, sv.Err), "cfg": cfg})
+		return
+	}
+	path := filepath.Join(dir, "cut-0.tar.gz")
+	orig, _ := os.ReadFile(path)
+	res, err := sim.CallRole(sim.RoleReq{Role: "resume", Kind: "vm", Cfg: cfgJSON, Dir: dir, Limit: limit, Path: path, Resave: true})
+	if err != nil || res.Err != "" {
+		c.Fail("archive/load-error-on-own-archive", map[string]any{"err": fmt.Sprint(err, res.Err), "cfg": cfg, "cut": cut})
+		return
+	}
+	r.Count("resave_compared", 1)
+	if !bytes.Equal(orig, res.Resaved) {
+		a, _ := sim.ReadTarGz(orig)
+		b, _ := sim.ReadTarGz(res.Resaved)
+		c.Fail("archive/not-canonical", map[string]any{"cfg": cfg, "cut": cut, "entities_differ": sim.DiffPayloads(a, b)})
+	}
+	type mut struct {
+		name string
+		f    func(*sim.VMCfg) bool
+	}
+	muts := []mut{
+		{"page-size", func(x *sim.VMCfg) bool {
+			if x.PageLog2 == 12 {
+				x.PageLog2 = 16
+			} else {
+				x.PageLog2 = 12
+			}
+			return true
+		}},
+		{"mmu-spec", func(x *sim.VMCfg) bool { x.MMULat = orDef(x.MMULat, 3) + 1; return true }},
+		{"tlb-spec", func(x *sim.VMCfg) bool {
+			if len(x.TLBs) == 0 {
+				return false
+			}
+			x.TLBs[0].Ways = orDef(x.TLBs[0].Ways, 2) + 1
+			return true
+		}},
+		{"tlb-removed", func(x *sim.VMCfg) bool {
+			if len(x.TLBs) == 0 {
+				return false
+			}
+			x.TLBs = x.TLBs[1:]
+			return true
+		}},
+		{"mmucache-toggled", func(x *sim.VMCfg) bool { x.MMUCache = !x.MMUCache; return true }},
+		{"gmmu-toggled", func(x *sim.VMCfg) bool { x.GMMU = !x.GMMU; return true }},
+		{"at-spec", func(x *sim.VMCfg) bool { x.ATReqs = orDef(x.ATReqs, 2) + 1; return true }},
+	}
+	for _, m := range muts {
+		var x sim.VMCfg
+		json.Unmarshal(cfgJSON, &x)
+		if !m.f(&x) {
+			continue
+		}
+		r.Count("config_mutations_tried", 1)
+		if m.name == "page-size" {
+			r.Count("page_size_mismatches_tried", 1)
+		}
+		if sv.InFlight[0] > 0 {
+			c.Nontrivial(string(cfgJSON) + "|cfg:" + m.name)
+		}
+		sim.ResetIDs()
+		var errText, panicked string
+		func() {
+			defer func() {
+				if e := recover(); e != nil {
+					panicked = fmt.Sprintf("%v\n%s", e, firstLines(string(debug.Stack()), 30))
+				}
+			}()
+			s := sim.BuildVMStack(x, dir)
+			defer s.Close()
+			if err := s.Sim.LoadCheckpoint(path, "verif"); err != nil {
+				errText = err.Error()
+			}
+		}()
+		switch {
+		case panicked != "":
+			c.Fail("archive/panic:cfg:"+m.name, map[string]any{"panic": panicked, "cfg": cfg})
+		case errText == "":
+			r.Count("loads_accepted", 1)
+			c.Fail("archive/accepted:cfg:"+m.name, map[string]any{"cfg": cfg, "mutation": m.name})
+		default:
+			r.Count("loads_rejected_with_error", 1)
+		}
+	}
+	c.Sample(map[string]any{"vm_cfg": cfg, "cut": cut, "inflight_at_cut": sv.InFlight[0]})
 }
 
 func orDef(v, d int) int {
